@@ -55,7 +55,8 @@ def name_is_mutated(fi, name):
     return False
 
 
-COPY_FUNCS = {"copy", "deepcopy", "list", "deque", "dict", "tuple", "array"}
+COPY_FUNCS = {"copy", "deepcopy"}          # type- and attribute-preserving
+CONV_FUNCS = {"list", "deque", "dict", "tuple", "set"}  # conversions: only exact if the attribute is a plain one
 
 
 def _attr_chain(e):
@@ -78,7 +79,36 @@ def pure_snapshot_expr(e, rng):
         if not rng and fname in COPY_FUNCS and len(e.args) == 1 and not e.keywords \
                 and isinstance(e.args[0], ast.Attribute) and _attr_chain(e.args[0]):
             return True
+        if not rng and fname in CONV_FUNCS and len(e.args) == 1 and not e.keywords \
+                and isinstance(e.args[0], ast.Attribute) and _attr_chain(e.args[0]):
+            return "conv:" + fname
     return False
+
+
+def creation_kinds(p, ci, attr):
+    """How self.<attr> is created in the class (MRO): set of 'list', 'dict',
+    'deque(maxlen)', 'deque', 'other'."""
+    out = set()
+    from ..index import ClassInfo
+    for k in p.mro(ci):
+        if not isinstance(k, ClassInfo):
+            continue
+        for f in k.methods.values():
+            for n in ast.walk(f.node):
+                if isinstance(n, ast.Assign) and any(isinstance(t, ast.Attribute) and isinstance(t.value, ast.Name)
+                                                     and t.value.id == "self" and t.attr == attr for t in n.targets):
+                    v = n.value
+                    if isinstance(v, ast.Name):
+                        continue  # restore from a saved local
+                    if isinstance(v, ast.List):
+                        out.add("list")
+                    elif isinstance(v, ast.Dict):
+                        out.add("dict")
+                    elif isinstance(v, ast.Call) and isinstance(v.func, ast.Name) and v.func.id in CONV_FUNCS:
+                        out.add(v.func.id + ("(kw)" if (v.keywords or len(v.args) > 1) else ""))
+                    else:
+                        out.add("other")
+    return out
 
 
 class Discharger:
@@ -146,8 +176,18 @@ class Discharger:
                     continue  # alias save cannot undo an in-place mutation
                 if not rng and "rng_state" in v.deps:
                     continue
-                if not pure_snapshot_expr(getattr(b.node, "value", None), rng):
+                kind = pure_snapshot_expr(getattr(b.node, "value", None), rng)
+                if not kind:
                     continue  # snapshot mixes in something else
+                if isinstance(kind, str) and kind.startswith("conv:"):
+                    # a conversion (list(x), deque(x)) only restores the state
+                    # exactly if the attribute is always a plain container of
+                    # that type (deque(x) drops maxlen, ...)
+                    if w.loc[0] != "self" or len(w.loc[1]) != 1:
+                        continue
+                    ck = creation_kinds(self.p, self.ci, w.loc[1][0])
+                    if ck != {kind[5:]}:
+                        continue
                 if not dominates(tree, b.node, sj):
                     continue
                 if name_is_mutated(fi, tname):
